@@ -69,8 +69,59 @@ def battery(m, kind):
             pass
 
 
+CONSTRUCTORS = {
+    'MeshLine()': ('line', lambda f: f.MeshLine()),
+    'MeshLine(linspace)': ('line', lambda f: f.MeshLine(np.linspace(0, 1, 5))),
+    'MeshTri()': ('tri', lambda f: f.MeshTri()),
+    'MeshTri.init_symmetric()': ('tri', lambda f: f.MeshTri.init_symmetric()),
+    'MeshTri.init_sqsymmetric()': ('tri', lambda f: f.MeshTri.init_sqsymmetric()),
+    'MeshTri.init_lshaped()': ('tri', lambda f: f.MeshTri.init_lshaped()),
+    'MeshTri.init_tensor': ('tri', lambda f: f.MeshTri.init_tensor(np.array([0., 1., 3.]), np.array([0., 2., 3., 4.]))),
+    'MeshTri.init_circle(2)': ('tri', lambda f: f.MeshTri.init_circle(2)),
+    'MeshTri.init_refdom()': ('tri', lambda f: f.MeshTri.init_refdom()),
+    'MeshQuad()': ('quad', lambda f: f.MeshQuad()),
+    'MeshQuad.init_tensor': ('quad', lambda f: f.MeshQuad.init_tensor(np.array([0., 1., 3.]), np.array([0., 2., 3.]))),
+    'MeshQuad.refined.to_meshtri': ('tri', lambda f: f.MeshQuad().refined(1).to_meshtri()),
+    'MeshTet()': ('tet', lambda f: f.MeshTet()),
+    'MeshTet.init_tensor': ('tet', lambda f: f.MeshTet.init_tensor(np.array([0., 1., 2.]), np.array([0., 1.]), np.array([0., 2.]))),
+    'MeshTet.init_ball(1)': ('tet', lambda f: f.MeshTet.init_ball(1)),
+    'MeshTet.init_refdom()': ('tet', lambda f: f.MeshTet.init_refdom()),
+    'MeshHex()': ('hex', lambda f: f.MeshHex()),
+    'MeshHex.init_tensor': ('hex', lambda f: f.MeshHex.init_tensor(np.array([0., 1., 2.]), np.array([0., 1.]), np.array([0., 2., 3.]))),
+    'MeshHex.to_meshtet': ('tet', lambda f: f.MeshHex().refined(1).to_meshtet()),
+    'MeshWedge1()': ('wedge', lambda f: f.MeshWedge1()),
+    'MeshTri*MeshLine': ('wedge', lambda f: f.MeshTri().refined(1) * f.MeshLine(np.linspace(0, 1, 3))),
+    'MeshWedge1.to_meshtet': ('tet', lambda f: f.MeshWedge1().to_meshtet()),
+    'MeshTri.refined(2)': ('tri', lambda f: f.MeshTri().refined(2)),
+    'MeshTet.refined(1)': ('tet', lambda f: f.MeshTet().refined(1)),
+    'MeshHex.refined(1)': ('hex', lambda f: f.MeshHex().refined(1)),
+    'MeshTri2()': ('tri', lambda f: f.MeshTri2()),
+    'MeshQuad2()': ('quad', lambda f: f.MeshQuad2()),
+    'MeshTet2()': ('tet', lambda f: f.MeshTet2()),
+    'MeshHex2()': ('hex', lambda f: f.MeshHex2()),
+}
+
+
+def execute_constructor(rec):
+    """Default constructors and constructor chains as initial states: their tables must satisfy C11 as well."""
+    import skfem as fem
+
+    def call():
+        m = CONSTRUCTORS[rec['constructor']][1](fem)
+        ev = conn_event(m, with_coords=False)
+        return ev
+    ev, err = guarded(call, 60)
+    if err:
+        ev = {'a': 'Conn', 'kind': rec['kind'], 'err': err, 'nv': 0, 't': [], 'lf': [], 'le': [], 'lfe': [], 'facets': [],
+              't2f': [], 'f2t': [], 'bfacets': [], 'bnodes': [], 'inodes': [], 'p2f': [], 'p2t': [], 'edges': [],
+              't2e': [], 'f2e': [], 'bedges': [], 'p2e': [], 'e2t': [], 'errs': [], 'p': [], 'scale': 0}
+    return [ev]
+
+
 def execute(rec):
     """Run the real code on a recipe; returns the event list."""
+    if rec.get('driver') == 'constructor':
+        return execute_constructor(rec)
     events = []
     kind = rec['kind']
     for j, v in enumerate(rec['variants']):
@@ -167,6 +218,10 @@ def generate(tier, seed):
     p2, t2 = U.tri_lattice(2, 1, (0, 1))
     p, t = U.wedge_extrude(p2, t2, 1)
     recs.append(recipe('wedge', p, t, rng, nvar, 'UW', local=False))
+    # --- default constructors and constructor chains (initial states of every session)
+    for name, (kind, _) in CONSTRUCTORS.items():
+        recs.append({'driver': 'constructor', 'kind': kind, 'family': 'constructors' if kind != 'wedge' else 'UW',
+                     'constructor': name, 'variants': [{'p': [], 't': [[0, 0]]}]})
     # --- random tier: integer Delaunay
     nrand = 400 if thorough else 30
     for j in range(nrand):
@@ -180,6 +235,8 @@ def generate(tier, seed):
 
 
 def _nontrivial(rec):
+    if rec.get('driver') == 'constructor':
+        return True
     t = np.array(rec['variants'][0]['t'])
     return t.ndim == 2 and t.shape[1] >= 2
 
@@ -213,7 +270,7 @@ def run(ctx):
             scs.append({'id': f'C11-suite-{j}', 'recipe': {'driver': 'suite', 'test': e.pop('test', '')},
                         'tags': {'kind': e['kind'], 'family': 'suite' if e['kind'] != 'wedge' else 'UW'}, 'events': [e]})
     ctx.validate('TraceC11', scs)
-    keys = {json.dumps([r['kind'], r['variants'][0]]) for r in recs if _nontrivial(r)}
+    keys = {json.dumps([r['kind'], r.get('constructor'), r['variants'][0]]) for r in recs if _nontrivial(r)}
     ctx.notes['distinct_nontrivial'] = len(keys)
     ctx.notes['scenarios_from_tlc_universe'] = n_tlc
     return ctx.finish(rule=RULE, assumptions=[
